@@ -12,7 +12,7 @@ Local Open Scope Z_scope.
 Inductive exn :=
 | KeyError | IndexError | AssertionError | TypeError | ValueError
 | JellyConformanceError | JellyAssertionError | JellyNotImplementedError
-| StopIteration | NotImplementedError | ZeroDivisionError | AttributeError.
+| StopIteration | NotImplementedError | ZeroDivisionError | AttributeError | RecursionError.
 
 (* the outcome of a call: a value or a raised exception; the object's state is returned beside it
    in both cases (what a method changed before it raised stays changed) *)
@@ -34,7 +34,7 @@ Definition is_exn (e e' : exn) : bool :=
   | JellyConformanceError, JellyConformanceError | JellyAssertionError, JellyAssertionError
   | JellyNotImplementedError, JellyNotImplementedError
   | StopIteration, StopIteration | NotImplementedError, NotImplementedError
-  | ZeroDivisionError, ZeroDivisionError | AttributeError, AttributeError => true
+  | ZeroDivisionError, ZeroDivisionError | AttributeError, AttributeError | RecursionError, RecursionError => true
   | _, _ => false
   end.
 
@@ -265,7 +265,21 @@ Definition msg_field (f : string) (m : pbval K) : option (pbval K) := msg_get f 
 (* type(x): the message class name, or "str" for a string *)
 Definition pb_kind (x : pbval K) : string :=
   match x with PMsg n _ => n | PStr _ => "str"%string | PInt _ => "int"%string | PBool _ => "bool"%string | PRep _ => "list"%string end.
+
+(* a str argument of a handler chosen by type(x) is str *)
+Definition pb_as_str (x : pbval K) : K := match x with PStr s => s | _ => empty end.
 End MsgRead.
+
+(* how deeply messages nest in x: the fuel a translated recursion over sub-messages needs (Python has no such
+   bound of its own short of the interpreter's recursion limit; protobuf's parser stops at 100 levels) *)
+Fixpoint pb_depth {K} (x : pbval K) : nat :=
+  match x with
+  | PMsg _ fs => Datatypes.S ((fix go (l : list (string * pbval K)) : nat :=
+                     match l with [] => O | (_, v) :: l' => Nat.max (pb_depth v) (go l') end) fs)
+  | PRep l => Datatypes.S ((fix go (l : list (pbval K)) : nat :=
+                     match l with [] => O | v :: l' => Nat.max (pb_depth v) (go l') end) l)
+  | _ => O
+  end.
 
 (* ---- dict[str, V] as an association list (insertion order; d[k] = v replaces in place) *)
 Section Dict.
